@@ -29,6 +29,7 @@ QuirksOff == [lin_to_yuv_raw_cfg |-> FALSE, rgb_to_yuv_panics_on_odd |-> FALSE]
 \* kinds need no second constructor variant
 JointFilter == (img.kind # "none" /\ <<img.w, img.h>> \in JointSizes) => last'.call = "RgbToYuv"
 Filter ==
+  /\ ~(last'.call \in {"MutatePayload", "Clone", "IntoData"})        \* accessor actions are bound by the "acc" family, not replayed here
   /\ JointFilter
   /\ (last'.call = "RgbToYuv" => img.tc = ResolveRgbTc(last'.args.tc) /\ img.cp = ResolveRgbCp(last'.args.cp))
   /\ (last'.call \in {"NewYuv", "RgbToYuv", "LinToYuv", "XybToYuv"} =>
